@@ -493,11 +493,42 @@ for _shift in (True, False):
                       "forall(c, 0, len(values), forall(p, 0, clen_values(c), chunkval(c, p) == X(off(c) + p)))",
                       "forall(r, 0, len(group_key), group_key[r] < ngroups)", "forall(k, 0, ngroups, Cnt(k, 0) == 0)"],
                   "frozen": ["group_key"] + (["mask"] if _m else []), "nonneg_index": ["group_buffers", "group_buffer_pos", "group_counts"],
+                  # the circular buffers and the output hold elements of the INPUT's type (exactness clause of C09 / C12: no detour through another dtype)
+                  "array_elem": {"group_buffers": "values", "out": "values"},
                   "loops": {0: {"iter": "values", "invariant": ["i == off(_it0) - 1", "_it0 <= len(values)"] + _sh_main("(i + 1)", _m, _shift)},
                             1: {"iter": "arr", "invariant": ["i == off(_it0) + _it1 - 1", "_it0 < len(values)", "_it1 <= clen_values(_it0)"] + _sh_main("(i + 1)", _m, _shift),
                                 "unfold": _unf, "lemmas": ["val == X(i + 1)"]}},
                   "ensures": [x.replace("out[", "result[") for x in _sh_main("len(group_key)", _m, _shift)[2:4]]},
                  specs=_specs, setup=_late_chunkval, props=("C09", "C06", "C12", "C05"), lemma_deps=("L-cnt-bound",))
+
+# ---- diff on int64 values (what datetime64 / timedelta64 inputs run as: the integer view with null = MIN_INT; the result is in the input's own unit because nothing is
+#      converted: the buffers and the output are int64 arrays (array_elem) and the difference is the integer difference).  |x| <= 2^62 keeps x - y inside int64 (A-int64).
+HistI = z3.Function("HistI", I, I, I); XIv = z3.Function("XI", I, I)
+def _shi_main(m, masked):
+    A = f"Cnt(k, {m})"; acc = _roll_acc(masked); prev = "HistI(group_key[r], Cnt(group_key[r], r) - window)"
+    return [f"forall(k, 0, ngroups, {A} >= 0 and {A} <= {m} and 0 <= group_buffer_pos[k] and group_buffer_pos[k] < window and group_counts[k] == minw({A}, window) and implies({A} < window, group_buffer_pos[k] == {A}))",
+            f"forall(k, 0, ngroups, forall(j, 0, window, implies(idx(j, group_buffer_pos[k], {A}, window) >= 0, group_buffers[k, j] == HistI(k, idx(j, group_buffer_pos[k], {A}, window)))))",
+            f"forall(r, 0, {m}, implies(group_key[r] < 0 or not {acc('r')}, out[r] == null_value))",
+            f"forall(r, 0, {m}, implies(group_key[r] >= 0 and {acc('r')}, out[r] == ite(Cnt(group_key[r], r) >= window and X(r) != null_value and {prev} != null_value, X(r) - {prev}, null_value)))",
+            f"forall(r, {m}, len(out), out[r] == null_value)"]
+for _m in (False, True):
+    _acc = _roll_acc(_m)
+    _unf = [f"forall(k, 0, ngroups, Cnt(k, i + 2) == Cnt(k, i + 1) + (1 if (group_key[i + 1] == k and {_acc('i + 1')}) else 0))",
+            f"implies(group_key[i + 1] >= 0 and {_acc('i + 1')}, HistI(group_key[i + 1], Cnt(group_key[i + 1], i + 1)) == X(i + 1))"]
+    _specs = dict(ROLL_SPECS); _specs.update({"HistI": HistI, "X": XIv})
+    register(NUMBA, "_rolling_shift_or_diff_1d", f"int,chunked,mask={'bool' if _m else 'None'},diff",
+             {"group_key": "arr:int:int64", "values": "chunks:int:int64", "ngroups": "int", "window": "int", "mask": "arr:bool:bool" if _m else "none", "null_value": "int", "want_shift": "const:False"},
+             {"requires": ["window >= 1", "window <= 32767", "ngroups >= 0", f"null_value == {MIN_INT}"] + (["len(mask) == len(group_key)"] if _m else []) + _CHUNK_REQ + [
+                  "forall(c, 0, len(values), forall(p, 0, clen_values(c), chunkval(c, p) == X(off(c) + p)))",
+                  f"forall(r, 0, len(group_key), X(r) == null_value or (X(r) >= -{2 ** 62} and X(r) <= {2 ** 62}))",
+                  "forall(r, 0, len(group_key), group_key[r] < ngroups)", "forall(k, 0, ngroups, Cnt(k, 0) == 0)"],
+              "frozen": ["group_key"] + (["mask"] if _m else []), "nonneg_index": ["group_buffers", "group_buffer_pos", "group_counts"],
+              "array_elem": {"group_buffers": "values", "out": "values"},
+              "loops": {0: {"iter": "values", "invariant": ["i == off(_it0) - 1", "_it0 <= len(values)"] + _shi_main("(i + 1)", _m)},
+                        1: {"iter": "arr", "invariant": ["i == off(_it0) + _it1 - 1", "_it0 < len(values)", "_it1 <= clen_values(_it0)"] + _shi_main("(i + 1)", _m),
+                            "unfold": _unf, "lemmas": ["val == X(i + 1)"]}},
+              "ensures": [x.replace("out[", "result[") for x in _shi_main("len(group_key)", _m)[2:4]]},
+             specs=_specs, setup=_late_chunkval, props=("C09", "C12"), lemma_deps=("L-cnt-bound",))
 
 # ----------------------------------------------------------------------------- _find_first_or_last_n (forward / backward; mask / no mask)
 def _firstn_contract(masked, forward):
